@@ -96,6 +96,44 @@ CHECKS['C08'] = dict(
     note=NOTE_COMMON + "Partial: CPython wall-clock time and resident memory are observed under limits, not modelled; PER-aligned and OER bounds are not proved (OER has none: known finding); jer/xer are exercised directly.",
     technique="Lean 4 proof (allocation bound + fuel sufficiency of total decoder models) + resource-limited mutation differential check",
     ref="DESIGN.md §4 C08")
+CHECKS['C02'] = dict(
+    text="Lean theorems jer_roundtrip / jer_roundtrip_exact: for ALL well-formed types of the model universe, ALL accepted values and ALL indentation settings, the JER document the model writes is "
+         "pure ASCII, is accepted by an independent RFC 8259 reader written in Lean (json_parse_render: parse (render j) = j for every well-formed tree) and decodes to the same abstract value; "
+         "the JER model is tied to the code by byte-exact document equality and value-exact decode on every generated case, and the Lean JSON reader is run on the implementation's own documents. "
+         "XER: theorems xer_document_roundtrip / xml_parse_render / xer_indent_irrelevant: the document the XER model writes is ASCII, is parsed completely by an independent XML 1.0 reader written in Lean "
+         "(parse (renderDoc indent x) = x for every tree the encoder can produce) and decodes to the same value for every indentation, under the decidable character/INTEGER-size hypotheses whose necessity is proved by closed witnesses; "
+         "tied to the code by byte-exact documents both ways, by the Lean reader and expat on the implementation's output. REAL boundary doubles (max, min subnormal, +-0, +-inf, exponents) are checked for exact round-trip in both codecs.",
+    note=NOTE_COMMON + "Partial: json.dumps, ElementTree.tostring and repr(float) are trusted externals (their output is what the Lean readers parse); REAL, OID, time types are outside the Lean universe (direct evaluation); "
+         "XER strings are restricted to XML Char minus CR (theorems cr_changes_value, control_char_not_wellformed show why). Known finding C02-addition-group-mandatory.",
+    technique="Lean 4 proof (JER and XER model round-trips through RFC 8259 / XML 1.0 readers written in Lean; structural induction over Ty, JSON and XML trees) + document-exact differential correspondence + independent parsers",
+    ref="DESIGN.md §4 C02")
+CHECKS['C13'] = dict(
+    text="Lean model Preprocess.run of Compiler.pre_process (COMPONENTS OF expansion, EXTENSIBILITY IMPLIED, automatic tagging, DEFAULT conversion incl. numeric_enums, per module in source order). Theorems: run_idempotent "
+         "(a rewrite of a rewritten dictionary is the identity, for ALL dictionaries incl. cyclic COMPONENTS OF; hypothesis EnumRefsStable), run_history (after ANY sequence of numeric_enums flags the dictionary equals ONE fresh rewrite "
+         "with the last flag, under the decidable hypothesis HistoryOK whose negation is the recorded finding predicate), clean_after_compile, per-pass idempotence lemmas; witnesses of both recorded defects as theorems. "
+         "Tied to the code by exact dictionary equality after 1, 3, 6, 9 real rewrites (compile_dict runs three each) on generated specifications, hand-made dictionaries and the repository fixtures, through pformat/eval steps; "
+         "behaviour after random histories is compared with fresh compiles on all 8 codecs.",
+    note=NOTE_COMMON + "Partial: the compile stages after pre_process are assumed to be a function of the rewritten dictionary (checked by behavioural fingerprints, not proved); parameterization passes and information objects are outside the model (fixtures using them are skipped and counted). "
+         "Known findings C13-enum-value-reference, C13-components-of-type-capture, C13-pformat-reorders-modules.",
+    technique="Lean 4 proof (idempotence and history absorption of the modelled rewrite, induction over modules/descriptors) + dictionary-exact differential correspondence + history-vs-fresh behavioural comparison",
+    ref="DESIGN.md §4 C13")
+CHECKS['C19'] = dict(
+    text="Lean theorem run_permutation: the dictionary rewrite commutes with EVERY reordering of the type assignments of a module (for all dictionaries, other modules unrestricted), so compiled behaviour cannot depend on assignment order through the rewrite; "
+         "module_order_matters is the closed witness of the recorded module-order defect. The rewrite model is tied to the code by dictionary-exact correspondence on every arrangement text; the remaining reorganisations "
+         "(inline/extract references, split into modules with IMPORTS, file order, constraints on references) are decided by direct comparison of bytes and decoded values across arrangements rendered from one AST on all 8 codecs, with arrangement 0 also compared with the Lean codec models.",
+    note=NOTE_COMMON + "Partial: only assignment reordering is proved; reference inlining/extraction and module splitting are evaluated, not proved (the compiler's reference resolution after pre_process is not modelled). "
+         "Known findings C19-components-of-module-order, C19-constraint-on-reference-ignored.",
+    technique="Lean 4 proof (rewrite commutes with assignment permutations) + dictionary-exact correspondence + metamorphic arrangement comparison",
+    ref="DESIGN.md §4 C19")
+CHECKS['C05'] = dict(
+    text="Specification encoder S written from X.691 clauses 10-27 in Lean (Asn1Model/X691.lean), validated on the Annex A.1/A.4 worked examples by kernel evaluation; refinement theorems uper_refines / per_refines: "
+         "for ALL well-formed types, accepted values and bit positions the code models (Uper/Per, tied byte-exactly to the implementation) emit exactly the bits S prescribes whenever the decidable deviation list is empty; "
+         "spec_total; minimality lemmas (constrained whole number width, octet counts, length determinant forms, sorted enumeration root). Each of the 13 deviation predicates has a kernel-checked witness theorem and is a recorded finding. "
+         "Stage K compares implementation bytes with S and with M on generated modules x boundary-biased values x {uper, per} in three arrangements and feeds S's octets to the real decoder.",
+    note=NOTE_COMMON + "Partial: S is a reading of the standard by the authors of this check (trusted, validated on the Annex examples in the repository); the universe excludes REAL, OID, SET, time types, named-bit trailing-zero stripping; "
+         "13 known findings C05-<deviation>.",
+    technique="Lean 4 proof (refinement of the code model to an X.691 specification encoder, mutual structural induction) + byte-exact three-way differential check (implementation, code model, specification)",
+    ref="DESIGN.md §4 C05")
 NOT_APPLICABLE = []
 
 def main():
